@@ -8,6 +8,7 @@ PID = "C06"
 
 def prepare():
     c07.gen()
+    c07.gen_lex()
 
 
 def run(tier, seed, t0):
@@ -28,12 +29,13 @@ def run(tier, seed, t0):
         e = events[m[1] - 1]
         v.violation({"property": PID, "event": {k: e[k] for k in e if k not in ("doc", "out")}, "expected_L1": "round trip", "why": m[2],
                      "what": "Parse(%s).JSON() = %s : %s" % (e["text"], e["output"], m[2])})
+    lsum, lstates, lrows = c07.run_lex(PID, v, tier, seed, out)
     rc = v.finish()
     cov = {
         "states": meta["distinct"] + r.distinct, "transitions": meta["generated"] + r.generated,
         "traces_validated_against_impl": 1,
         "evaluations": summ["parses_accepted"], "distinct_nontrivial": summ["round_trips_recorded"],
-        "rule": "every Gen_Doc document (26 base documents x every single structural mutation; see C07) that the real Parse accepts is "
+        "rule": "every Gen_Doc document (the core base documents x every single structural mutation; see C07) that the real Parse accepts is "
                 "round-tripped under 5 option sets and 3 number tables (17-digit values, 5e-324, -0, 1.8e308) with varied spellings, "
                 "whitespace and escaped keys; each round trip is one trace event (input AST, tokenised output AST keeping member order "
                 "and duplicates, valid / re-parsed / same kind / byte-identical second output / same answers) judged by Trace_C06: "
@@ -41,6 +43,7 @@ def run(tier, seed, t0):
                 "foreign members in order, properties on Features). distinct_nontrivial = distinct (document, table, options) round trips",
         "samples": [{k: events[len(events) // 2][k] for k in ("text", "output", "opts", "fix", "valid", "samekind", "sameans")}],
         "round_trips_judged_by_tlc": len(events), "mismatches": len(mism),
+        "byte_level": c07.lex_cov(lsum, lstates, lrows),
     }
     vlib.write_evidence(PID, tier, seed, t0, cov, [vlib.TOOLS,
                         "numbers are tokens of three float tables; output numbers are mapped back to tokens by float64 bit equality",
